@@ -829,7 +829,7 @@ def run(ctx, build, verdict, ev):
     set_lits, set_index = setter_cases(ctx, fl, ctx.n(150, 1500))
     thorough = ctx.tier == "thorough"  # fixed sizes: these probes are not scaled up when the sources changed
     pow_probe(ctx, fl, verdict, stats, 60000 if thorough else 3000)
-    kernel_probe(ctx, fl, verdict, stats, 20000 if thorough else 2000, 6 if thorough else 3)
+    kernel_probe(ctx, fl, verdict, stats, ctx.n(2000, 20000), ctx.n(3, 6))
     examples_run(ctx, fl, verdict, stats, ctx.n(16, 64))
     flush(set_lits, set_index)
     ncases = dict(counts)
